@@ -13,6 +13,7 @@ Definition ec_trace (c : ecase) : list event := obs_trace (ec_obs c).
 
 Definition ecase_mon_C01 (c : ecase) := mon_C01 (ec_prog c) (ec_cfg c) (ec_trace c).
 Definition ecase_mon_calls (c : ecase) := mon_calls (ec_prog c) (ec_cfg c) (ec_trace c).
+Definition ecase_mon_waits (c : ecase) := mon_waits (ec_prog c) (ec_cfg c) (ec_trace c).
 Definition ecase_mon_C02 (c : ecase) := mon_C02 (ec_prog c) (ec_cfg c) (ec_trace c).
 Definition ecase_mon_C03 (c : ecase) := mon_C03 (ec_prog c) (ec_cfg c) (ec_trace c).
 Definition ecase_mon_C03s (c : ecase) :=
@@ -21,6 +22,10 @@ Definition ecase_mon_C06 (c : ecase) := mon_C06 (ec_prog c) (ec_cfg c) (ec_trace
 Definition ecase_mon_C07 (c : ecase) := mon_C07 (ec_cfg c) (ec_trace c).
 Definition ecase_mon_C13 (c : ecase) := mon_C13 (ec_prog c) (ec_cfg c) (ec_trace c).
 Definition ecase_mon_C14 (c : ecase) := mon_C14 (ec_prog c) (ec_cfg c) (ec_complete c) (ec_trace c).
+
+(* liveness at quiescent points: where the implementation is stuck the model must be stuck too *)
+Definition ecase_mon_eager (c : ecase) : bool :=
+  if ec_agree c then eager_ok (ec_prog c) (ec_cfg c) (ec_obs c) else true.
 
 Definition ecase_agree (c : ecase) : bool :=
   if ec_agree c then Nat.eqb (agree_code (ec_prog c) (ec_cfg c) (ec_obs c) (ec_final c)) 0 else true.
